@@ -55,4 +55,5 @@ var Aux = map[string]func(args []string) int{
 	"c17race":  c17.Aux,
 	"c11race":  c11.Aux,
 	"c06ref":   c06.Aux,
+	"c05ref":   c05.Aux,
 }
